@@ -6,7 +6,7 @@ What is compared (driver handler `FloatRound`, `lean/Yaql/Drv/FloatRound.lean`):
                       vs  `float(Fraction(num, den))` (the independent second derivation),
                       vs  `float('<digits>.<digits>')` for the decimal cases (what the yaql lexer calls);
 * `floatOfInt i`      vs  `float(i)`;
-* `divBits x y`       vs  `x / y` on two Python floats (one IEEE division);
+* `divBits x y`       vs  `x / y` on two Python floats (one IEEE division), `mulBits x y` vs `x * y`;
 * (a test of the test) the same quotients by the machine's doubles inside the Lean driver (`Float`).
 
 A difference is `mismatch` (the MODEL is wrong - or the platform is not IEEE-754/CPython as assumed), never an oracle
@@ -188,7 +188,7 @@ def run_section(env, res, prop_id, n_random):
     rat, dec, ints, divs = corpus(rng, n_random)
     dec_rat = [(int(a + b), 10 ** len(b)) for a, b in dec]
     allrat = [(n, d) for n, d, _ in rat] + dec_rat
-    out = {'rat': [], 'hw': [], 'div': [], 'hwdiv': [], 'int': []}
+    out = {'rat': [], 'hw': [], 'div': [], 'hwdiv': [], 'mul': [], 'hwmul': [], 'int': []}
     CH = 1500
     for i in range(0, len(allrat), CH):
         r = drv.ask(dict(p='FloatRound', rat=[[str(n), str(d)] for n, d in allrat[i:i + CH]]))
@@ -198,6 +198,8 @@ def run_section(env, res, prop_id, n_random):
         r = drv.ask(dict(p='FloatRound', div=[[str(x), str(y)] for x, y in divs[i:i + CH]]))
         out['div'] += r['div']
         out['hwdiv'] += r['hwdiv']
+        out['mul'] += r['mul']
+        out['hwmul'] += r['hwmul']
     r = drv.ask(dict(p='FloatRound', int=[str(i) for i in ints]))
     out['int'] = r['int']
     fails = 0
@@ -263,6 +265,18 @@ def run_section(env, res, prop_id, n_random):
             if not same_or_nan(m, p):
                 fail('floatround-div', 'divBits %016x / %016x: model %016x, CPython %016x' % (x, y, m, p),
                      dict(x=str(x), y=str(y)))
+    for (x, y), m, hw in zip(divs, out['mul'], out['hwmul']):
+        hist['products'] = hist.get('products', 0) + 1
+        res.case(('fm', x, y), nontrivial=True)
+        res.traces += 1
+        m = int(m)
+        p = bits(of_bits(x) * of_bits(y))
+        if not same_or_nan(m, int(hw)):
+            fail('floatround-hardware', 'mulBits %016x * %016x: model %016x, Lean Float %016x' % (x, y, m, int(hw)),
+                 dict(x=str(x), y=str(y), op='mul'))
+        if not same_or_nan(m, p):
+            fail('floatround-mul', 'mulBits %016x * %016x: model %016x, CPython %016x' % (x, y, m, p),
+                 dict(x=str(x), y=str(y), op='mul'))
     hist['failures'] = fails
     return hist
 
@@ -292,6 +306,14 @@ def replay(env, res, rp):
         res.traces += 1
         if m != p:
             res.fail('mismatch', 'floatround-int', 'float(%s..): model %r, CPython %r' % (str(i)[:60], m, p),
+                     dict(section='floatround', **rp))
+    elif 'x' in rp and rp.get('op') == 'mul':
+        x, y = int(rp['x']), int(rp['y'])
+        m = int(drv.ask(dict(p='FloatRound', div=[[str(x), str(y)]]))['mul'][0])
+        res.case(('fm', x, y), True)
+        res.traces += 1
+        if not same_or_nan(m, bits(of_bits(x) * of_bits(y))):
+            res.fail('mismatch', 'floatround-mul', 'mulBits %016x * %016x: model %016x' % (x, y, m),
                      dict(section='floatround', **rp))
     elif 'x' in rp:
         x, y = int(rp['x']), int(rp['y'])
